@@ -252,6 +252,9 @@ def merge_case_st(draw):
                                                     allow_malformed=False, with_id=True))
     sc["alpha"] = draw(st.sampled_from([None, [0.4, 0.7]]))
     sc["population"] = draw(st.sampled_from([None, 500]))
+    # a second subtotal on the SAME axis spanning every valid category ("Total"), present
+    # in both runs: the subtotal under test then shares its block with another insertion
+    sc["with_total"] = draw(st.booleans())
     return sc
 
 
@@ -315,13 +318,20 @@ def judge_merge(case, rec):
     alias = q["dims"][which]["var"]
     tA = {axis_name: {"insertions": [case["insertion"]]}}
     tM = {}
+    sv2, mid = merged_survey(sv, alias, case["adds"])
+    if case.get("with_total"):
+        def total(svx):
+            var = svx["vars"][alias]
+            return {"function": "subtotal", "name": "TOTAL", "anchor": "bottom", "id": 2,
+                    "args": [c["id"] for c in var["cats"] if not c["missing"]]}
+        tA[axis_name]["insertions"] = [case["insertion"], total(sv)]
+        tM[axis_name] = {"insertions": [total(sv2)]}
     if case["other_ins"]:
         tA[other_name] = {"insertions": case["other_ins"]}
         tM[other_name] = {"insertions": case["other_ins"]}
     if case["alpha"]:
         tA["pairwise_indices"] = {"alpha": case["alpha"], "only_larger": False}
         tM["pairwise_indices"] = {"alpha": case["alpha"], "only_larger": False}
-    sv2, mid = merged_survey(sv, alias, case["adds"])
     A = lib.cube(zz9enc.encode(sv, q), tA, population=case["population"]).partitions[0]
     M = lib.cube(zz9enc.encode(sv2, q), tM, population=case["population"]).partitions[0]
     oA, oM = Oracle(sv, q), Oracle(sv2, q)
@@ -332,10 +342,12 @@ def judge_merge(case, rec):
     # --- positions of the subtotal (A) and of the merged category (M) along the axis
     ordA = [int(x) for x in (A.row_order() if which == 0 else A.column_order())]
     ordM = [int(x) for x in (M.row_order() if which == 0 else M.column_order())]
-    if sum(1 for x in ordA if x < 0) != 1:
-        rec.violation("expected exactly one inserted vector, order %r" % ordA, "merge-setup")
+    n_ins = 2 if case.get("with_total") else 1
+    if sum(1 for x in ordA if x < 0) != n_ins:
+        rec.violation("expected %d inserted vector(s), order %r" % (n_ins, ordA), "merge-setup")
         return
-    pA = [p for p, x in enumerate(ordA) if x < 0][0]
+    labelsA = [str(x) for x in (A.row_labels if which == 0 else A.column_labels)]
+    pA = labelsA.index("MERGED")
     pM = ordM.index(dimM.keys.index(mid))
     # --- correspondence of the other vectors along the axis (non-addend base elements)
     corr = []  # (posA, posM)
